@@ -8,6 +8,7 @@ import (
 	cdc "github.com/craterdog/go-collection-framework/v4/cdcn"
 	col "github.com/craterdog/go-collection-framework/v4/collection"
 	vf "github.com/craterdog/go-collection-framework/v4/zzvf"
+	"math"
 )
 
 // roundTrip: ParseSource(FormatValue(v)) succeeds, compares equal to v, and formats to the same text.
@@ -119,6 +120,26 @@ func VF_C10_Special(typ, i int) {
 		x = complex(c10floats[i], c10floats[(i+3)%len(c10floats)])
 	}
 	roundTrip("special", col.List[any](nil).MakeFromArray([]any{x, x}), false)
+	// exact numeric values: floats and the parts of complex numbers come back bit for bit (signed zeros!)
+	if typ == 0 || typ == 5 {
+		vf.Budget(20000000)
+		var back any
+		p, _ := vf.Panics(func() { back = mod.ParseSource(mod.FormatValue(col.List[any](nil).MakeFromArray([]any{x}))) })
+		if !p {
+			got, isSeq := seqOf(back)
+			if isSeq && len(got) == 1 {
+				switch want := x.(type) {
+				case float64:
+					g, isF := got[0].(float64)
+					vf.Assert("float-bits-exact", isF && math.Float64bits(g) == math.Float64bits(want))
+				case complex128:
+					g, isC := got[0].(complex128)
+					vf.Assert("complex-bits-exact", isC && math.Float64bits(real(g)) == math.Float64bits(real(want)) && math.Float64bits(imag(g)) == math.Float64bits(imag(want)))
+				}
+			}
+		}
+		vf.BudgetReset()
+	}
 	vf.Reach("end")
 }
 
